@@ -198,7 +198,7 @@ def program(rng, **kw):
 def _program(rng, *, n_state=(1, 5), n_control=(0, 3), n_calib=(0, 3), n_sensor=(0, 3),
             n_reading=(1, 4), depth=3, cpp_safe=True, allow_text=True, n_shared=(1, 3),
             integrator_bias=0.5, dt_names=("dt",), sensor_calib=True, containers=True, wraps=False,
-            assumptions=True, physical=True,
+            assumptions=True, physical=True, int_calibration=False,
             calib_containers=("set", "set", "frozenset", "list", "tuple")):
     """Random model + sensor definition."""
     P = pools()
@@ -305,11 +305,40 @@ def _program(rng, *, n_state=(1, 5), n_control=(0, 3), n_calib=(0, 3), n_sensor=
         "reading_keys": reading_keys,
         "n_shared": len(shared),
     }
+    if rng.random() < 0.12:
+        # noise magnitudes written as exact rationals (fractions.Fraction / sympy.Rational), e.g. a
+        # datasheet value 1/3; the float the oracle uses is exactly float(rational)
+        typed = {"process": {}, "sensor": {}}
+        for c in list(defn["process_noise"]):
+            if rng.random() < 0.6:
+                num, den = rng.randint(1, 9), rng.choice([2, 3, 4, 7, 8, 10])
+                defn["process_noise"][c] = num / den
+                typed["process"][c] = [rng.choice(["Fraction", "Rational"]), num, den]
+        for sn in defn["sensor_noises"]:
+            for rn in list(defn["sensor_noises"][sn]):
+                if rng.random() < 0.4:
+                    num, den = rng.randint(1, 9), rng.choice([2, 3, 4, 7, 8, 10])
+                    defn["sensor_noises"][sn][rn] = num / den
+                    typed["sensor"].setdefault(sn, {})[rn] = [rng.choice(["Fraction", "Rational"]), num, den]
+        if typed["process"] or typed["sensor"]:
+            defn["noise_as"] = typed
     if assumptions and rng.random() < 0.2:
         # sympy symbols that carry assumptions (Symbol("x", real=True)) - valid and common practice;
         # string-typed expressions would create plain symbols, so they are switched off here
         defn["symbol_assumptions"] = rng.choice(["real", "real_finite"])
         defn["model_as_text"] = []
+    if int_calibration and calib and rng.random() < 0.3 and state:
+        # a calibration map made of Python ints only (encoder counts, scale factors): products and powers of
+        # calibration values are then integer arithmetic, exact in Python and far beyond 2**63 here
+        ints = [3000000, 4096, 100003, -50000, 7, 2]
+        rng.shuffle(ints)
+        defn["calibration_map"] = {k: ints[i % len(ints)] for i, k in enumerate(defn["calibration_map"])}
+        big = max(defn["calibration_map"], key=lambda k: abs(defn["calibration_map"][k]))
+        tgt = rng.choice(state)
+        defn["model"][tgt] = ["add", defn["model"][tgt],
+                              ["mul", ["mul", ["pow", E.S(big), 3], E.F(1e-18)], gen_leaf(rng, state, 0.0)]]
+        defn["integer_calibration"] = True
+        defn["model_as_text"] = [n for n in defn["model_as_text"] if n != tgt]
     if physical and rng.random() < 0.15 and state:
         # a term with a tiny literal and a huge calibration value whose product matters (G*M, k_B*T, ...)
         tiny = rng.choice([6.674e-11, 1.380649e-23, 8.854e-12, 3.0e-9, 1e-15])
